@@ -680,7 +680,27 @@ func (c *Compiler) applyUsesToNode(mod, nod, use parse.Node, parentStatus schema
 	if st := use.ChildByType(parse.NodeStatus); st != nil {
 		status = parseStatus(st)
 	}
-	for _, a := range use.ChildrenByType(parse.NodeAugment) {
+	// The order in which the augments of a uses are written means nothing:
+	// one whose target is added by another augment of the uses lets an
+	// augment that can be applied go first.
+	augments := use.ChildrenByType(parse.NodeAugment)
+	targetMissing := func(a parse.Node) bool {
+		if _, ok := a.Argument().(*parse.DescendantSchemaArg); !ok {
+			return false
+		}
+		return c.getDataDescendant(use, targetNodes, a.ArgDescendantSchema(),
+			func(parse.Node) {}) == nil
+	}
+	for i := range augments {
+		if targetMissing(augments[i]) {
+			for j := i + 1; j < len(augments); j++ {
+				if !targetMissing(augments[j]) {
+					augments[i], augments[j] = augments[j], augments[i]
+					break
+				}
+			}
+		}
+		a := augments[i]
 		if _, ok := a.Argument().(*parse.DescendantSchemaArg); !ok {
 			c.error(a,
 				fmt.Errorf("invalid argument %s expected descendant schema id",
